@@ -654,13 +654,24 @@ func (c *codegen) pickVarsFromNodes(nodes []nodeContext, markAsUsed func(name st
 			ast.Inspect(val.node, func(node ast.Node) bool {
 				switch n := node.(type) {
 				case *ast.KeyValueExpr: // var _ = f() + CustomInt{Int: Unused}.Int + 3 => mark Unused as "used".
+					// The key of a struct literal is a field name, the key of
+					// a map (array, slice) literal is an expression.
+					if id, ok := n.Key.(*ast.Ident); !ok || !isField(c.typeInfo.ObjectOf(id)) {
+						nextExprToCheck = append(nextExprToCheck, val.derive(n.Key))
+					}
 					nextExprToCheck = append(nextExprToCheck, val.derive(n.Value))
 					return false
 				case *ast.CallExpr:
 					switch t := n.Fun.(type) {
 					case *ast.Ident:
-						// Do nothing, used functions are handled in a separate cycle.
+						// Used functions are handled in a separate cycle,
+						// a variable holding a function literal is a variable.
+						if _, ok := c.typeInfo.ObjectOf(t).(*types.Var); ok {
+							markAsUsed(c.getIdentName(val.path, t.Name))
+						}
 					case *ast.SelectorExpr:
+						nextExprToCheck = append(nextExprToCheck, val.derive(t))
+					default:
 						nextExprToCheck = append(nextExprToCheck, val.derive(t))
 					}
 					for _, arg := range n.Args {
@@ -673,14 +684,9 @@ func (c *codegen) pickVarsFromNodes(nodes []nodeContext, markAsUsed func(name st
 					return false
 				case *ast.SelectorExpr:
 					if c.typeInfo.Selections[n] != nil {
-						switch t := n.X.(type) {
-						case *ast.Ident:
-							nextExprToCheck = append(nextExprToCheck, val.derive(t))
-						case *ast.CompositeLit:
-							nextExprToCheck = append(nextExprToCheck, val.derive(t))
-						case *ast.SelectorExpr: // imp_pkg.Anna.GetAge() => mark Anna (exported global struct) as used.
-							nextExprToCheck = append(nextExprToCheck, val.derive(t))
-						}
+						// imp_pkg.Anna.GetAge() => mark Anna (exported global struct) as used,
+						// the same for gs[0].x, (g).x, (*gp).x and any other operand.
+						nextExprToCheck = append(nextExprToCheck, val.derive(n.X))
 					} else {
 						ident := n.X.(*ast.Ident)
 						name := c.getIdentName(ident.Name, n.Sel.Name)
@@ -701,7 +707,7 @@ func (c *codegen) pickVarsFromNodes(nodes []nodeContext, markAsUsed func(name st
 					markAsUsed(name)
 					return false
 				case *ast.DeferStmt:
-					nextExprToCheck = append(nextExprToCheck, val.derive(n.Call.Fun))
+					nextExprToCheck = append(nextExprToCheck, val.derive(n.Call))
 					return false
 				case *ast.BasicLit:
 					return false
@@ -711,6 +717,12 @@ func (c *codegen) pickVarsFromNodes(nodes []nodeContext, markAsUsed func(name st
 		}
 		nodes = nextExprToCheck
 	}
+}
+
+// isField checks whether the object is a field of a struct.
+func isField(obj types.Object) bool {
+	v, ok := obj.(*types.Var)
+	return ok && v.IsField()
 }
 
 func isGoBuiltin(name string) bool {
